@@ -83,10 +83,10 @@ let () =
       let line = input_line ic in
       match String.split_on_char ' ' (String.trim line) with
       | id :: toks when id <> "" ->
-          let flags = ref 0 and width = ref 80 and cmds = ref [] and args = ref [] and again = ref 0 in
+          let flags = ref 0 and width = ref 80 and cmds = ref [] and args = ref [] and again = ref 0 and sets = ref [] in
           let t1 = ref None and t2 = ref None in
           (* sub-groups: (keyspec, flags, desc, arguments in reverse order), latest first *)
-          let groups = ref [] and parents = ref [] and rawcmds = ref [] in
+          let groups = ref [] and parents = ref [] and rawcmds = ref [] and mainraw = ref [] in
           let text spec =
             let pos = match spec.[0] with 'b' -> UBefore | 'a' -> UAfter | _ -> UUnused in
             Some (pos, bytes_of_hex (String.sub spec 2 (String.length spec - 2))) in
@@ -94,11 +94,21 @@ let () =
              List.iter (fun t ->
                  if starts "f=" t then flags := int_of_string (after "f=" t)
                  else if starts "w=" t then width := int_of_string (after "w=" t)
-                 else if starts "c=" t then (rawcmds := split_on ',' (after "c=" t); cmds := List.map parse_cmd !rawcmds)
+                 else if starts "c=" t then begin
+                   (* set=<idx>:<value hex> : the argument <idx> of the main handler is given that value on the command
+                      line before the other commands: the variable then holds it, which is what the usage shows as
+                      "default value" - the same as an argument defined with this initial value *)
+                   let all = split_on ',' (after "c=" t) in
+                   sets := List.filter_map (fun c -> if starts "set=" c then
+                                               (match String.split_on_char ':' (after "set=" c) with
+                                                | [i; v] -> Some (int_of_string i, v) | _ -> None) else None) all;
+                   rawcmds := List.filter (fun c -> not (starts "set=" c)) all;
+                   cmds := List.map parse_cmd !rawcmds
+                 end
                  else if starts "again=" t then again := int_of_string (after "again=" t)
                  else if starts "a:" t then
                    (match !groups with
-                    | [] -> args := parse_arg t :: !args
+                    | [] -> mainraw := t :: !mainraw
                     | (k, fl, d, l) :: r -> groups := (k, fl, d, parse_arg t :: l) :: r)
                  else if starts "g:" t then
                    (match String.split_on_char ':' t with
@@ -110,6 +120,14 @@ let () =
                     | _ -> raise (Setup "invalid_argument"))
                  else if starts "t1=" t then t1 := text (after "t1=" t)
                  else if starts "t2=" t then t2 := text (after "t2=" t)) toks;
+             (* the arguments of the main handler, with the values given by "set" *)
+             args := List.rev (List.mapi (fun i t ->
+                 match List.assoc_opt i !sets with
+                 | Some v ->
+                     (match String.split_on_char ':' t with
+                      | [a; k; kind; _; l; r; u; c; cn; d] -> parse_arg (String.concat ":" [a; k; kind; v; l; r; u; c; cn; d])
+                      | _ -> parse_arg t)
+                 | None -> parse_arg t) (List.rev !mainraw));
              (match check_texts !t1 !t2 with
               | Ok _ -> ()
               | Err e -> raise (Setup (err_name e))
